@@ -20,17 +20,18 @@ R == INSTANCE Req
 Places == {"fn", "param", "modfn", "implfn", "traitmethod"}
 \* "cfgattr": a conditionally attached attribute, `#[cfg_attr(all(), allow(..))]` - not a `cfg`, so not mirrored
 \* "cfgonoff": two stacked cfgs, the first enabled, the second disabled (the marker is the disabled one)
-Kinds == {"doc", "lint", "cfgon", "cfgoff", "tool", "inert", "cfgattr", "cfgonoff"}
+\* "cfgattroff": a disabled cfg written through cfg_attr, `#[cfg_attr(all(), cfg(any()))]` - it IS a cfg
+Kinds == {"doc", "lint", "cfgon", "cfgoff", "tool", "inert", "cfgattr", "cfgonoff", "cfgattroff"}
 \* pat: the pattern of the parameter that carries the attribute (place "param"): a plain identifier, `_`, or a destructuring pattern
 Pats == {"ident", "wild", "destr"}
 Inputs == { i \in [place : Places, kind : Kinds, async : BOOLEAN, nodeps : BOOLEAN, pat : Pats] :
             /\ (i.place # "param" => i.pat = "ident")
             /\ (i.place = "param" => i.kind \in {"lint", "cfgon"})
-            /\ (i.place = "traitmethod" => i.kind \in {"doc", "lint", "cfgon", "cfgoff", "inert", "cfgattr", "cfgonoff"})
-            /\ (i.place = "fn" => i.kind \notin {"cfgon", "cfgoff", "cfgattr", "cfgonoff"})       \* rustc evaluates a cfg on the annotated item itself before the macro runs
+            /\ (i.place = "traitmethod" => i.kind \in {"doc", "lint", "cfgon", "cfgoff", "inert", "cfgattr", "cfgonoff", "cfgattroff"})
+            /\ (i.place = "fn" => i.kind \notin {"cfgon", "cfgoff", "cfgattr", "cfgonoff", "cfgattroff"})       \* rustc evaluates a cfg on the annotated item itself before the macro runs
             /\ (i.nodeps => i.place \in {"fn", "param", "modfn"}) }
 
-IsCfg(k) == k \in {"cfgon", "cfgoff", "cfgonoff"}
+IsCfg(k) == k \in {"cfgon", "cfgoff", "cfgonoff", "cfgattroff"}
 Flow(i) ==
   CASE i.place = "fn"    -> [orig |-> 1, gen_items |-> 0, gen_trait_methods |-> 0, gen_impl_methods |-> 0, gen_params |-> 0]
     [] i.place = "param" -> [orig |-> 1, gen_items |-> 0, gen_trait_methods |-> 0, gen_impl_methods |-> 0, gen_params |-> 0]
